@@ -1,5 +1,6 @@
 import Resolvo.MDet.Checked
 import Resolvo.Abs.Fail
+import Resolvo.Abs.Preferred
 import Resolvo.Props.C05
 namespace Resolvo.MDet
 open Resolvo Resolvo.Abs
@@ -7,28 +8,34 @@ open Resolvo Resolvo.Abs
 theorem checkOutcome_ok (U : Universe) (P : Problem) (o : Outcome) (h : List Ev) (sol : List Nat)
     (hc : checkOutcome U P o h = .ok sol) :
     o = .ok sol ∧ validB U P sol (exemptOf P sol) = true ∧ supportedB U P sol = true ∧
-      (runOpt U P (absEvents h)).isSome = true := by
+      ∃ st, runOptD U P (absEvents h) = some st ∧ sol = st.trueSolvables := by
   unfold checkOutcome at hc
   cases o with
   | stop w => cases hc
   | unsat c =>
     simp only [] at hc
-    cases hr : runOpt U P (absEvents h) with
+    cases hr : runOptD U P (absEvents h) with
     | none => rw [hr] at hc; cases hc
     | some st => rw [hr] at hc; simp only [] at hc; split at hc <;> cases hc
   | ok s0 =>
     simp only [] at hc
-    cases hr : runOpt U P (absEvents h) with
+    cases hr : runOptD U P (absEvents h) with
     | none => rw [hr] at hc; cases hc
     | some st =>
       rw [hr] at hc
       simp only [] at hc
       split at hc
-      · next hv =>
-        split at hc
-        · next hs => cases hc; exact ⟨rfl, hv, hs, rfl⟩
-        · cases hc
       · cases hc
+      · next hne =>
+        split at hc
+        · next hv =>
+          split at hc
+          · next hs =>
+            cases hc
+            refine ⟨rfl, hv, hs, st, rfl, ?_⟩
+            simpa using hne
+          · cases hc
+        · cases hc
 
 theorem checkOutcome_unsat (U : Universe) (P : Problem) (o : Outcome) (h : List Ev) (c : List Nat)
     (hc : checkOutcome U P o h = .unsat c) :
@@ -38,18 +45,24 @@ theorem checkOutcome_unsat (U : Universe) (P : Problem) (o : Outcome) (h : List 
   | stop w => cases hc
   | ok s0 =>
     simp only [] at hc
-    cases hr : runOpt U P (absEvents h) with
+    cases hr : runOptD U P (absEvents h) with
     | none => rw [hr] at hc; cases hc
-    | some st => rw [hr] at hc; simp only [] at hc; split at hc <;> (try split at hc) <;> cases hc
+    | some st =>
+      rw [hr] at hc; simp only [] at hc
+      split at hc
+      · cases hc
+      · split at hc
+        · split at hc <;> cases hc
+        · cases hc
   | unsat c0 =>
     simp only [] at hc
-    cases hr : runOpt U P (absEvents h) with
+    cases hr : runOptD U P (absEvents h) with
     | none => rw [hr] at hc; cases hc
     | some st =>
       rw [hr] at hc
       simp only [] at hc
       split at hc
-      · next hf => exact ⟨st, rfl, hf⟩
+      · next hf => exact ⟨st, runOptD_runOpt U P _ {} st hr, hf⟩
       · cases hc
 
 /-- **C01 for the checked model**: every solution it returns is valid (full statement, with the
@@ -91,5 +104,17 @@ theorem solveChecked_ok_solvable (U : Universe) (P : Problem) (fuel : Nat) (s : 
   refine ⟨sol, ?_⟩
   have : P.hard = P := by cases P; simp [Problem.hard] at *; exact hsoft
   rw [this]; exact hv
+
+/-- **C07 for the checked model**: when the first choices are mutually compatible, the checked model returns
+    exactly them — for all universes, problems without soft requirements, solver states and fuel. -/
+theorem solveChecked_preferred (U : Universe) (P : Problem) (fuel : Nat) (s : S) (sol pref : List Nat)
+    (hsoft : P.soft = []) (hpc : preferredConsistent U P = some pref)
+    (h : (solveChecked U P fuel s).1 = .ok sol) : ∀ x, x ∈ sol ↔ x ∈ pref := by
+  unfold solveChecked at h
+  simp only [] at h
+  obtain ⟨_, hv, _, st, hrun, hsol⟩ := checkOutcome_ok U P _ _ sol h
+  have he : exemptOf P sol = [] := by simp [exemptOf, hsoft]
+  rw [he] at hv
+  exact preferred_exact U P hsoft pref hpc _ st hrun sol hsol ((validB_iff U P sol []).mp hv)
 
 end Resolvo.MDet
